@@ -64,6 +64,7 @@ unsafe fn w_clone(p: *const ()) -> RawWaker {
     // SAFETY: p came from Arc::into_raw of an Arc<WakerCounters>.
     let c = unsafe { &*p.cast::<WakerCounters>() };
     c.clones.fetch_add(1, Ordering::Relaxed);
+    cb_hook(CB_CLONE);
     // SAFETY: as above; the count is incremented for the new RawWaker.
     unsafe { Arc::increment_strong_count(p.cast::<WakerCounters>()) };
     RawWaker::new(p, &VTABLE)
@@ -86,6 +87,82 @@ unsafe fn w_drop(p: *const ()) {
     // SAFETY: p came from Arc::into_raw; this consumes one reference.
     let c = unsafe { Arc::from_raw(p.cast::<WakerCounters>()) };
     c.drops.fetch_add(1, Ordering::Relaxed);
+    drop(c);
+    cb_hook(CB_DROP);
+}
+
+// ------------------------------------------------------------------------------------------------
+// Waker callbacks as a scheduling seam
+// ------------------------------------------------------------------------------------------------
+//
+// The waker handed to `poll` is user code that the library calls in the middle of its receiver-side
+// operations (clone when registering, drop when replacing a registration or when the receiver
+// goes away). Whatever that code does is a legal interleaving point, so the simulator owns it:
+//  * `mt`:  the callback yields a PRNG-chosen number of times (widens the window between the
+//           library's atomic steps for Miri's scheduler) and, at one chosen invocation, waits
+//           (bounded, through a Relaxed flag: no happens-before edge is added) until the sender
+//           thread has finished - so that a complete send / sender drop lands inside the window.
+//  * `seq`: at one chosen invocation the callback performs the sender's action re-entrantly on the
+//           same thread (safe code can do this: a waker may own the sender), which places the
+//           whole sender operation between two atomic steps of a receiver operation.
+
+const CB_CLONE: usize = 0;
+const CB_DROP: usize = 1;
+static CB_YIELDS: [AtomicU32; 2] = [AtomicU32::new(0), AtomicU32::new(0)];
+static CB_CALLS: [AtomicU32; 2] = [AtomicU32::new(0), AtomicU32::new(0)];
+/// 0 = none, 1 = clone, 2 = drop.
+static CB_TRIGGER_KIND: AtomicU32 = AtomicU32::new(0);
+static CB_TRIGGER_NTH: AtomicU32 = AtomicU32::new(0);
+static CB_FIRED: AtomicU32 = AtomicU32::new(0);
+static SENDER_DONE: AtomicU32 = AtomicU32::new(0);
+
+thread_local! {
+    static IS_RECEIVER: std::cell::Cell<bool> = const { std::cell::Cell::new(false) };
+    static CB_SENDER: std::cell::RefCell<Option<Box<dyn FnOnce()>>> = const { std::cell::RefCell::new(None) };
+    static CB_EVENTS: std::cell::RefCell<Vec<Ev>> = const { std::cell::RefCell::new(Vec::new()) };
+}
+
+fn cb_hook(kind: usize) {
+    if !IS_RECEIVER.with(std::cell::Cell::get) {
+        return;
+    }
+    let n = CB_CALLS[kind].fetch_add(1, Ordering::Relaxed);
+    for _ in 0..CB_YIELDS[kind].load(Ordering::Relaxed) {
+        std::thread::yield_now();
+    }
+    if CB_TRIGGER_KIND.load(Ordering::Relaxed) as usize == kind + 1 && CB_TRIGGER_NTH.load(Ordering::Relaxed) == n {
+        let reentrant = CB_SENDER.with(|c| c.borrow_mut().take());
+        if let Some(f) = reentrant {
+            CB_FIRED.store(1, Ordering::Relaxed);
+            f();
+        } else {
+            // mt: hold this thread here until the sender is done (bounded: never a harness deadlock).
+            let mut spins = 0_u32;
+            while SENDER_DONE.load(Ordering::Relaxed) == 0 && spins < 400 {
+                std::thread::yield_now();
+                spins += 1;
+            }
+            if SENDER_DONE.load(Ordering::Relaxed) != 0 {
+                CB_FIRED.store(2, Ordering::Relaxed);
+            }
+        }
+    }
+}
+
+fn cb_reset(plan: &CbPlan) {
+    CB_YIELDS[CB_CLONE].store(u32::from(plan.yields_clone), Ordering::Relaxed);
+    CB_YIELDS[CB_DROP].store(u32::from(plan.yields_drop), Ordering::Relaxed);
+    CB_CALLS[CB_CLONE].store(0, Ordering::Relaxed);
+    CB_CALLS[CB_DROP].store(0, Ordering::Relaxed);
+    let (k, n) = match plan.sender_in {
+        Some((CbKind::Clone, n)) => (1, n),
+        Some((CbKind::Drop, n)) => (2, n),
+        None => (0, 0),
+    };
+    CB_TRIGGER_KIND.store(k, Ordering::Relaxed);
+    CB_TRIGGER_NTH.store(u32::from(n), Ordering::Relaxed);
+    CB_FIRED.store(0, Ordering::Relaxed);
+    SENDER_DONE.store(0, Ordering::Relaxed);
 }
 
 fn new_waker(c: &Arc<WakerCounters>) -> Waker {
@@ -150,8 +227,26 @@ enum RecvOp {
     Drop,
 }
 
+#[derive(Clone, Copy, Debug, Serialize, Deserialize, PartialEq, Eq)]
+enum CbKind {
+    Clone,
+    Drop,
+}
+
+/// What the simulator-owned waker callbacks do on the receiver's thread (see `cb_hook`).
+#[derive(Clone, Copy, Debug, Default, Serialize, Deserialize, PartialEq, Eq)]
+struct CbPlan {
+    yields_clone: u8,
+    yields_drop: u8,
+    /// The sender's whole action happens inside the n-th (0-based) invocation of this callback kind
+    /// (`seq`: re-entrantly on the same thread; `mt`: the receiver thread waits there for the sender).
+    sender_in: Option<(CbKind, u8)>,
+}
+
 #[derive(Clone, Debug, Serialize, Deserialize)]
 struct OnceScenario {
+    #[serde(default)]
+    cb: CbPlan,
     storage: Storage,
     sender: SenderAction,
     sender_yields: u8,
@@ -181,7 +276,30 @@ fn gen_scenario(rng: &mut Rng, storages: &[Storage], concurrent: bool, traffic: 
         }
     }
     let pooled = !matches!(storage, Storage::Boxed | Storage::Embedded);
+    let polls = receiver.iter().filter(|o| matches!(o, RecvOp::Poll(_))).count();
+    let mut cb = CbPlan::default();
+    if polls > 0 && rng.chance(1, 2) {
+        if concurrent {
+            if rng.bool() {
+                cb.yields_clone = rng.range(1, 6) as u8;
+            }
+            if rng.bool() {
+                cb.yields_drop = rng.range(1, 6) as u8;
+            }
+        }
+        if !concurrent || rng.chance(1, 2) {
+            let kind = if rng.bool() { CbKind::Clone } else { CbKind::Drop };
+            // Every poll drops the harness's original waker afterwards, so drop invocations are
+            // about twice as frequent as clone invocations.
+            let max = match kind {
+                CbKind::Clone => polls,
+                CbKind::Drop => 2 * polls,
+            };
+            cb.sender_in = Some((kind, rng.below(max as u64) as u8));
+        }
+    }
     OnceScenario {
+        cb,
         storage,
         sender: if rng.chance(3, 4) { SenderAction::Send } else { SenderAction::Drop },
         // Thread start order is the scheduler's; these staggers decide who tends to act first so
@@ -450,6 +568,7 @@ fn run_pair<T: Tx, R: Rx>(
             s_shared.wait_go();
             yields(sy);
             sender_act(tx, action, &s_shared, &mut events);
+            SENDER_DONE.store(1, Ordering::Relaxed);
             events
         });
         let r_shared = Arc::clone(shared);
@@ -458,6 +577,7 @@ fn run_pair<T: Tx, R: Rx>(
         let receiver_thread = std::thread::spawn(move || {
             let mut rep = RecvReport::default();
             let mut rx = Some(rx);
+            IS_RECEIVER.with(|c| c.set(true));
             r_shared.wait_go();
             yields(ry);
             for op in script {
@@ -489,26 +609,52 @@ fn run_pair<T: Tx, R: Rx>(
     } else {
         rep = RecvReport::default();
         let mut rx = Some(rx);
-        let mut tx = Some(tx);
-        let at = usize::from(sc.seq_sender_at).min(sc.receiver.len());
-        for (i, op) in sc.receiver.iter().enumerate() {
-            if i == at {
-                if let Some(t) = tx.take() {
-                    sender_act(t, sc.sender, shared, &mut all_events);
-                    if let (Some(t), true) = (&traffic, sc.traffic_threads > 0) {
-                        t();
-                    }
+        // The sender's action lives in a thread-local slot: whoever takes it first performs it -
+        // the chosen waker callback (re-entrantly, in the middle of a receiver operation) or the
+        // script position `seq_sender_at` / the end of the script.
+        let (s_shared, s_action) = (Arc::clone(shared), sc.sender);
+        CB_EVENTS.with(|e| e.borrow_mut().clear());
+        CB_SENDER.with(|c| {
+            *c.borrow_mut() = Some(Box::new(move || {
+                let mut events = Vec::new();
+                sender_act(tx, s_action, &s_shared, &mut events);
+                CB_EVENTS.with(|e| e.borrow_mut().extend(events));
+            }));
+        });
+        IS_RECEIVER.with(|c| c.set(true));
+        // Rental traffic (inline in `seq`) runs once, at the first operation boundary after the
+        // sender acted - also when the sender acted inside a waker callback.
+        let mut traffic_pending = sc.traffic_threads > 0;
+        let mut run_traffic_if_sender_done = |traffic: &Option<Arc<dyn Fn() + Send + Sync>>| {
+            if traffic_pending && CB_SENDER.with(|c| c.borrow().is_none()) {
+                traffic_pending = false;
+                if let Some(t) = traffic {
+                    t();
                 }
             }
+        };
+        let fire_sender = || {
+            if let Some(f) = CB_SENDER.with(|c| c.borrow_mut().take()) {
+                f();
+            }
+        };
+        let at = if sc.cb.sender_in.is_some() {
+            sc.receiver.len()
+        } else {
+            usize::from(sc.seq_sender_at).min(sc.receiver.len())
+        };
+        for (i, op) in sc.receiver.iter().enumerate() {
+            if i == at {
+                fire_sender();
+            }
+            run_traffic_if_sender_done(&traffic);
             let Some(r) = rx.take() else { break };
             rx = recv_op(*op, r, shared, sc.sender, &mut rep);
         }
-        if let Some(t) = tx.take() {
-            sender_act(t, sc.sender, shared, &mut all_events);
-            if let (Some(t), true) = (&traffic, sc.traffic_threads > 0) {
-                t();
-            }
-        }
+        fire_sender();
+        run_traffic_if_sender_done(&traffic);
+        IS_RECEIVER.with(|c| c.set(false));
+        all_events.extend(CB_EVENTS.with(|e| std::mem::take(&mut *e.borrow_mut())));
         rx_left = rx;
     }
 
@@ -653,13 +799,17 @@ impl Scenario for OnceScenario {
         events_once::verif::set_on_release(Some(on_release));
         RELEASE_COUNT.store(0, Ordering::Relaxed);
         POISON_ADDR.store(0, Ordering::Relaxed);
+        cb_reset(&self.cb);
         let shared = Arc::new(Shared {
             go: std::sync::atomic::AtomicBool::new(false),
             stamp: AtomicU64::new(1),
             payload_drops: Arc::new(AtomicU32::new(0)),
             wakers: [Arc::new(WakerCounters::default()), Arc::new(WakerCounters::default())],
         });
-        ctx.event_str(&format!("cfg: {:?} sender={:?} traffic={}", self.storage, self.sender, self.traffic_threads));
+        ctx.event_str(&format!(
+            "cfg: {:?} sender={:?} traffic={} cb={:?}",
+            self.storage, self.sender, self.traffic_threads, self.cb
+        ));
         let traffic_events = usize::from(self.traffic_threads) * traffic_rounds();
         let traffic_runs = if self.concurrent { traffic_events } else { if self.traffic_threads > 0 { traffic_rounds() } else { 0 } };
         let nt;
@@ -748,6 +898,26 @@ impl Scenario for OnceScenario {
                 check!(lake.is_empty() && lake.len() == 0, "lake-not-empty", "raw lake.len() = {} at quiescence", lake.len());
             }
         }
+        match CB_FIRED.load(Ordering::Relaxed) {
+            1 => {
+                ctx.fault("sender-acted-inside-waker-callback");
+                ctx.probe(match self.cb.sender_in {
+                    Some((CbKind::Clone, _)) => "reentrant-sender-in-waker-clone",
+                    _ => "reentrant-sender-in-waker-drop",
+                });
+            }
+            2 => {
+                ctx.fault("receiver-held-in-waker-callback-until-sender-done");
+                ctx.probe(match self.cb.sender_in {
+                    Some((CbKind::Clone, _)) => "sender-completed-inside-waker-clone",
+                    _ => "sender-completed-inside-waker-drop",
+                });
+            }
+            _ => {}
+        }
+        if self.cb.yields_clone > 0 || self.cb.yields_drop > 0 {
+            ctx.fault("waker-callback-yields");
+        }
         ctx.probe(match self.storage {
             Storage::Boxed => "storage:boxed",
             Storage::Embedded => "storage:embedded",
@@ -793,6 +963,21 @@ impl Scenario for OnceScenario {
             s.seq_sender_at -= 1;
             out.push(s);
         }
+        if self.cb.yields_clone > 0 {
+            let mut s = self.clone();
+            s.cb.yields_clone -= 1;
+            out.push(s);
+        }
+        if self.cb.yields_drop > 0 {
+            let mut s = self.clone();
+            s.cb.yields_drop -= 1;
+            out.push(s);
+        }
+        if let Some((k, n)) = self.cb.sender_in {
+            let mut s = self.clone();
+            s.cb.sender_in = if n > 0 { Some((k, n - 1)) } else { None };
+            out.push(s);
+        }
         out
     }
 
@@ -802,6 +987,9 @@ impl Scenario for OnceScenario {
             + usize::from(self.sender_yields)
             + usize::from(self.receiver_yields)
             + usize::from(self.seq_sender_at)
+            + usize::from(self.cb.yields_clone)
+            + usize::from(self.cb.yields_drop)
+            + self.cb.sender_in.map_or(0, |(_, n)| 2 + usize::from(n))
             + if self.storage == Storage::Boxed { 0 } else { 3 }
     }
 }
